@@ -106,6 +106,12 @@ inductive Ev
   | extAppend (p : Path) (data : Bytes)
 deriving Repr
 
+/-- an event of the environment (not of the tool) -/
+def Ev.isExt : Ev → Bool
+  | .ext _ _ => true
+  | .extAppend _ _ => true
+  | _ => false
+
 structure St where
   fs       : FS
   hasOut   : Bool          -- f.out != nil
